@@ -1091,6 +1091,93 @@ pub fn run_state_case(spec: &Spec, out: &mut dyn Write) -> GeomOut {
         }
         // the SVG: 9 cell frames, then per placement the placement itself and its 8 nearest images
         let svg = st.svg();
+        // ... and what is placed there: the definition `#mol` draws the shape itself (the discs with their centres and
+        // radii - half of sigma for Lennard-Jones particles; the polygon through its vertices, in single precision as
+        // the svg crate writes path data), and `#cell` the cell's own outline
+        {
+            let group = |id: &str| -> Option<String> {
+                let open = format!("<g id=\"{}\">", id);
+                let i = svg.find(&open)? + open.len();
+                let j = svg[i..].find("</g>")? + i;
+                Some(svg[i..j].to_string())
+            };
+            let attr = |tag: &str, name: &str| -> Option<f64> {
+                let key = format!("{}=\"", name);
+                let i = tag.find(&key)? + key.len();
+                let j = tag[i..].find('"')? + i;
+                tag[i..j].parse::<f64>().ok()
+            };
+            let path_points = |g: &str| -> Option<Vec<(f64, f64)>> {
+                let i = g.find("d=\"")? + 3;
+                let j = g[i..].find('"')? + i;
+                let mut pts = vec![];
+                for tok in g[i..j].split_whitespace() {
+                    let t = tok.trim_start_matches(|c: char| c == 'M' || c == 'L');
+                    if t == "z" || t.is_empty() { continue; }
+                    let mut it = t.split(',');
+                    let x = it.next()?.parse::<f64>().ok()?;
+                    let y = it.next()?.parse::<f64>().ok()?;
+                    pts.push((x, y));
+                }
+                Some(pts)
+            };
+            let single = |want: f64, got: f64, scale: f64| -> bool { (want - got).abs() <= 2e-6 * want.abs().max(scale) };
+            match (group("mol"), &items) {
+                (None, _) => add(&mut f, "C11", "the SVG has no definition of the shape (#mol)".into()),
+                (Some(g), Items::Discs(v)) => {
+                    let circles: Vec<&str> = g.split("<circle ").skip(1).collect();
+                    if circles.len() != v.len() {
+                        add(&mut f, "C11", format!("the SVG draws the molecule with {} circles, it has {} discs", circles.len(), v.len()));
+                    } else {
+                        for (c, d) in circles.iter().zip(v.iter()) {
+                            let got = (attr(c, "cx"), attr(c, "cy"), attr(c, "r"));
+                            if got != (Some(d[0]), Some(d[1]), Some(d[2])) && !(d[0] == 0. && d[1] == 0. && got == (Some(0.), Some(0.), Some(d[2]))) {
+                                add(&mut f, "C11", format!("the SVG draws a disc as {:?}, the molecule has (x, y, r) = {:?}", got, d));
+                                break;
+                            }
+                        }
+                    }
+                }
+                (Some(g), Items::Ljs(v)) => {
+                    let circles: Vec<&str> = g.split("<circle ").skip(1).collect();
+                    if circles.len() != v.len() {
+                        add(&mut f, "C11", format!("the SVG draws the molecule with {} circles, it has {} particles", circles.len(), v.len()));
+                    } else {
+                        for (c, p) in circles.iter().zip(v.iter()) {
+                            let got = (attr(c, "cx"), attr(c, "cy"), attr(c, "r"));
+                            let want = (Some(p.0 + 0.), Some(p.1 + 0.), Some(p.2 / 2.));
+                            if got != want {
+                                add(&mut f, "C11", format!("the SVG draws a particle as {:?}, the molecule has (x, y, sigma/2) = {:?}", got, want));
+                                break;
+                            }
+                        }
+                    }
+                }
+                (Some(g), Items::Segs(v)) => {
+                    let want: Vec<(f64, f64)> = v.first().map(|i| (i[0], i[1])).into_iter().chain(v.iter().map(|i| (i[2], i[3]))).collect();
+                    match path_points(&g) {
+                        Some(pts) if pts.len() == want.len() => {
+                            let sc = want.iter().fold(0f64, |a, p| a.max(p.0.abs()).max(p.1.abs()));
+                            if let Some(k) = (0..pts.len()).find(|&k| !(single(want[k].0, pts[k].0, sc) && single(want[k].1, pts[k].1, sc))) {
+                                add(&mut f, "C11", format!("the SVG draws vertex {} of the polygon at {:?}, the shape has it at {:?}", k, pts[k], want[k]));
+                            }
+                        }
+                        other => add(&mut f, "C11", format!("the SVG draws the polygon through {:?} points, the shape has {} edges", other.map(|p| p.len()), v.len())),
+                    }
+                }
+            }
+            // the cell outline: the corners (-1/2,-1/2), (-1/2,1/2), (1/2,1/2), (1/2,-1/2) of the cell
+            if let Some(pts) = group("cell").and_then(|g| path_points(&g)) {
+                let corners: Vec<(f64, f64)> = [(-0.5, -0.5), (-0.5, 0.5), (0.5, 0.5), (0.5, -0.5)].iter()
+                    .map(|(u, w)| (u * a + w * b * cs, w * b * sn)).collect();
+                let sc = a.abs().max(b.abs());
+                if pts.len() != 4 || (0..4).any(|k| !(single(corners[k].0, pts[k].0, sc) && single(corners[k].1, pts[k].1, sc))) {
+                    add(&mut f, "C11", format!("the SVG outlines the cell through {:?}, its corners are {:?}", pts, corners));
+                }
+            } else {
+                add(&mut f, "C11", "the SVG has no outline of the cell (#cell)".into());
+            }
+        }
         let mut uses: Vec<(String, Vec<f64>)> = vec![];
         for tag in svg.split("<use ").skip(1) {
             let tag = &tag[..tag.find('>').unwrap_or(tag.len())];
